@@ -18,6 +18,7 @@ import (
 	"fmt"
 	"github.com/echovault/sugardb/internal"
 	"github.com/echovault/sugardb/internal/clock"
+	"github.com/echovault/sugardb/verifhook"
 	"github.com/tidwall/resp"
 	"io"
 	"log"
@@ -109,6 +110,7 @@ func NewAppendStore(options ...func(store *Store)) (*Store, error) {
 			return nil, fmt.Errorf("new append store -> open file error: %+v", err)
 		}
 		store.rw = f
+		store.rw = verifhook.WrapFile(path.Join(store.directory, "aof", "log.aof"), store.rw)
 	}
 
 	// Start another goroutine that takes handles syncing the content to the file system.
@@ -128,6 +130,7 @@ func NewAppendStore(options ...func(store *Store)) (*Store, error) {
 				}
 				store.mut.Unlock()
 				<-ticker.C
+				verifhook.Yield("aof.everysec")
 			}
 		}()
 	}
